@@ -318,11 +318,49 @@ func init() {
 			e.Unknown("aac.aacAudioChannels")
 			e.P("def aacAudioChannels : List Nat := []")
 		}
+		// AudioSpecificConfig.Decode: the hierarchical-signalling guard and the sync extension constants
+		asc := Parse("av/codec/aac/asc.go")
+		guard := ""
+		var syncs []int64
+		if fd := FuncDecl(asc, "AudioSpecificConfig", "Decode"); fd != nil {
+			ast.Inspect(fd, func(n ast.Node) bool {
+				switch x := n.(type) {
+				case *ast.IfStmt:
+					c := strings.Join(strings.Fields(Src(x.Cond)), " ")
+					if guard == "" && strings.Contains(c, "AOT_PS") && strings.Contains(c, "Peek") {
+						guard = c
+					}
+				case *ast.BinaryExpr:
+					if x.Op == token.EQL {
+						if l, ok := x.Y.(*ast.BasicLit); ok && strings.HasPrefix(l.Value, "0x") && (strings.Contains(Src(x.X), "Peek(11)") || strings.Contains(Src(x.X), "Read(11)")) {
+							if v, ok := evalExpr(l, 0, ac); ok {
+								syncs = append(syncs, v)
+							}
+						}
+					}
+				}
+				return true
+			})
+		}
+		e.P("/-- av/codec/aac/asc.go Decode: the condition that selects hierarchical SBR/PS signalling -/")
+		e.P("def aacHierGuard : String := %s", LeanStr(guard))
+		switch guard {
+		case "asc.ObjectType == AOT_SBR || (asc.ObjectType == AOT_PS && 0 == r.Peek(3)&0x03 && 0 == r.Peek(9)&0x3F)":
+			e.P("def aacPsGuardFFmpeg : Bool := false")
+		case aacGuardNew:
+			e.P("def aacPsGuardFFmpeg : Bool := true")
+		default:
+			e.Unknown("aac.Decode.guard")
+			e.P("def aacPsGuardFFmpeg : Bool := false")
+		}
+		e.P("/-- av/codec/aac/asc.go Decode: the 11-bit sync extension types compared against Peek(11) / Read(11) -/")
+		e.P("def aacSyncExtTypes : List Nat := %s", natList(syncs))
 		_ = fmt.Sprint
 	})
 }
 
 // the shapes of the repaired functions (kept in step with the 'fix:' commits in /repo)
+const aacGuardNew = "asc.ObjectType == AOT_SBR || (asc.ObjectType == AOT_PS && !(r.Peek(3)&0x03 != 0 && r.Peek(9)&0x3F == 0))"
 const h264WidthNew = "cropUnitX, _ := sps.cropUnits() ; return (int(sps.PicWidthInMbsMinus1)+1)*16 - cropUnitX*(int(sps.FrameCropLeftOffset)+int(sps.FrameCropRightOffset))"
 const h264HeightNew = "_, cropUnitY := sps.cropUnits() ; return (2-int(sps.FrameMbsOnlyFlag))*(int(sps.PicHeightInMapUnitsMinus1)+1)*16 - cropUnitY*(int(sps.FrameCropTopOffset)+int(sps.FrameCropBottomOffset))"
 const h264CropUnitsNew = "chromaArrayType := sps.ChromaFormatIdc ; if sps.SeparateColourPlaneFlag == 1 { chromaArrayType = 0 } ; cropUnitX, cropUnitY = 1, 2-int(sps.FrameMbsOnlyFlag) ; switch chromaArrayType { case 1: cropUnitX, cropUnitY = 2, 2*cropUnitY case 2: cropUnitX = 2 } ; return"
